@@ -3241,8 +3241,8 @@ func (m *Machine) SetSchema(newSchema Schema, names S) error {
 		m.schemaMx.Unlock()
 		return err
 	}
-	// TODO is this safe?
-	m.subs.SetClock(m.Clock(nil))
+	// keep sharing the machine's clock (a copy would go stale)
+	m.subs.SetClock(m.clock)
 	m.schemaMx.Unlock()
 
 	// notify the resolver and tracers
